@@ -21,6 +21,7 @@ RULE = ("three explorers. (1) active set: n=1..N; all 3^n vectors over a three-l
         "class, parameter, option, scaling). (3) histories: every sequence of `depth` response() calls over 3 input "
         "tables x damping x class x sign x active-set option, fresh objects per sequence, oracle after every call; "
         "non-trivial if >=2 calls visit >=2 different tables; distinct by (configuration, sequence).")
+RULE += " Extended in seeding rounds 6-7:  numeric admissibility by the largest term over the selected entries (soft minimum of widely spread data), vectors of 257..2000 entries."
 ASSUMPTIONS = [
     "first response(): AggScaling has no previous factor and starts with s_0 = true_0/approx_0 for every damping (read "
     "from AggScaling.__call__: `if self.sf is None: self.sf = scale`); the statement does not fix the initial value, "
